@@ -1209,3 +1209,8 @@ case("c05-refactor-early-continuable", "C05", "refactor", [(H + "complete_workfl
         if all_continuable:
             return WorkflowStatus.SUCCEEDED
 """)])
+case("c16-jump-keys-stay-inherited", "C16", "mutant", [(H + "jump_to_stage/handler.py", """                if inherited:
+                    s.context["_inherited_keys"] = [k for k in inherited if k not in updates]
+""", """                if inherited:
+                    pass
+""")], "C16.R4")
